@@ -119,6 +119,7 @@ class Answerer(object):
 
     def __call__(self, missing, needed_by):
         name = missing.name()
+        self.kinds[name] = type(missing).__name__        # also for an answer served from the overrides (directed returns)
         if len(self.order) >= self.limit:
             return (None, False)
         if name in self.refuse:
